@@ -932,8 +932,11 @@ class EventBus:
             # the run loop task itself is being cancelled (stop(), loop shutdown): stop polling and let it end
             get_next_queued_event.cancel()
             raise
-        except (RuntimeError, QueueShutDown):
-            # Clean cancellation during shutdown or queue was shut down
+        except QueueShutDown:
+            # the queue was shut down by stop(): let _run_loop() end instead of polling a dead queue in a busy loop
+            raise
+        except RuntimeError:
+            # Clean cancellation during shutdown
             return None
 
     async def step(
